@@ -108,7 +108,19 @@ pub fn equal_up_to(a: &str, b: &str, ignore: &[&str]) -> Result<(), String> {
 pub fn roundtrip<'eng>(ir: &Context<'eng>) -> Result<(Context<'eng>, Vec<String>), String> {
     let s = ir.to_string();
     let ir2 = sway_ir::parser::parse(&s, ir.source_engine(), ir.experimental, ir.backtrace)
-        .map_err(|e| format!("re-parse/verify failed: {e}"))?;
+        .map_err(|e| {
+            // quote the offending line of the printed text: the parser only gives a position
+            let msg = e.to_string();
+            let line = msg
+                .split("error at ")
+                .nth(1)
+                .and_then(|r| r.split(':').next())
+                .and_then(|l| l.trim().parse::<usize>().ok())
+                .and_then(|l| s.lines().nth(l.saturating_sub(1)))
+                .map(|l| format!(" [line: {}]", l.trim()))
+                .unwrap_or_default();
+            format!("re-parse/verify failed: {msg}{line}")
+        })?;
     let s2 = ir2.to_string();
     let mut notes = vec![];
     if let Err(first) = equal_up_to_value_renaming(&s, &s2) {
